@@ -97,6 +97,11 @@ static Verdict run_prog(const ProgCase &c) {
     if (op.flags & 0xc) {
       // outcome unspecified: follow what the library did so that later operations are judged against the real state
       label("reserved_flag_bits_unspecified");
+      if (op.event == EV_PROC && r.rc == 0 && (op.op == 0 || op.op == 1)) {  // identifier happens to be a live pid (see below): legitimate registration, stop here
+        PBT_REQUIRE(r.live_fds == live + 1, tag << ": successful process registration owns " << (long)r.live_fds - (long)live << " descriptors");
+        label("proc_cookie_is_a_live_pid");
+        return Verdict::pass();
+      }
       live = r.live_fds;
       has_tfd = (uint32_t)(r.tpdata & 0xffffffffu) != 0;
       if (r.rc == 0 && (op.event == EV_READ || op.event == EV_WRITE)) { rw_reg = (op.op != 3); reg_event = rw_reg ? op.event : -1; }
